@@ -729,12 +729,22 @@ def l3_closed_forms(chk, ctx, case, small, key0, B, data, boots, func, p_in, f_i
     tol = 3 * tol + 1e-7 * np.abs(ex)
     if not np.all(np.isfinite(ex)) or not np.all(np.isfinite(tol)):
         chk.stat('closed_form_stat_illconditioned'); return
-    scale = float(np.max(np.abs(ex))) if api in ('get_godambe',) or (api == 'GIM_uncert' and res[1] is not None) else 0.0
-    judged = tol <= 0.3 * np.maximum(np.abs(ex), 0.0) + 0.02 * scale + 1e-300       # matrix entries: relative to the matrix scale
-    if not np.all(judged) and scale == 0.0:
+    # the tolerance is first order: it is only valid while the relative perturbations of H and J are small
+    with np.errstate(all='ignore'):
+        Jx = sum(np.outer(g, g) for g in gx) / len(gx)
+        dJ = sum(np.outer(np.abs(g), e) + np.outer(e, np.abs(g)) + np.outer(e, e) for g, e in zip(gx, dg)) / len(gx)
+        pertJ = float(np.max(np.sum(np.abs(np.linalg.inv(Jx)) @ dJ, axis=1))) if np.all(np.isfinite(Jx)) else float('inf')
+        pertH = float(np.max(np.sum(np.abs(np.linalg.inv(Hx)) @ dH, axis=1)))
+    if not (pertJ < 0.05 and pertH < 0.05):
         chk.stat('closed_form_stat_illconditioned'); return
-    if not np.any(judged):
+    # entries of matrices are judged relative to the scale of the result, scalars and uncertainties relative to themselves
+    nunc = N if api == 'GIM_uncert' else 0
+    thr = 0.3 * np.abs(ex)
+    if api == 'get_godambe' or (api == 'GIM_uncert' and res[1] is not None):
+        thr[nunc:] = 0.1 * float(np.max(np.abs(ex[nunc:])))
+    if np.any(tol > thr + 1e-300):
         chk.stat('closed_form_stat_illconditioned'); return
+    judged = np.ones(ex.shape, dtype=bool)
     chk.stat('closed_form_stat')
     if got.shape != ex.shape:
         chk.fail(key0 + ':stat_closed_form:shape', '%s returns %d numbers, the closed form has %d' % (api, got.size, ex.size), small); return
@@ -1018,7 +1028,10 @@ def run(chk, ctx):
                 'end points and powers of two, every parameter drawn from {normal, 0, tiny (eps*p < 1e-6), negative, dyadic, just above/below the 1e-6 threshold}, '
                 'with and without extra `args`; hessian_elem with explicit step vectors (both signs) and one-sided patterns / the None default; step rule observed '
                 'from the evaluation points of one-parameter functions. pipeline: linear Poisson models with 1-3 positive basis spectra on 6-12 samples, Poisson data and '
-                '4-11 bootstraps, every entry point x multinom x (log for FIM/GIM) x boot_theta_adjusts x nested index sets, eps log-uniform in [1e-4, 1e-1], each run also at '
+                '4-11 bootstraps; first the FULL CROSS PRODUCT of the options each entry point has -- get_godambe: log x boot_theta_adjusts {none, all 1, varied} x just_hess; '
+                'GIM_uncert: log x multinom x adjusts {none, all 1, varied (multinom=False only; with multinom=True the documented ValueError is checked)} x return_GIM; '
+                'FIM_uncert: log x multinom x return_FIM; LRT_adjust: multinom x adjusts; Wald_stat/score_stat: multinom -- each compared with the closed-form H, scores, J, cU, '
+                'GIM and uncertainties (once per run in quick, 8 times in thorough), then random draws of the same options with nested index sets; eps log-uniform in [1e-4, 1e-1], each run also at '
                 'eps/2; bootstrap lists permuted; histories of 3-6 entry-point calls on two models sharing ns/pts and the null value of the nested parameter, each compared with '
                 'the same call on an empty cache; sum_chi2_ppf with 2-4 weights, scalar / list / tuple / ndarray / 0-d arguments, zeros, unnormalised weights. '
                 'non-trivial/distinct = distinct (kind of check, n, degree, parameter kinds, entry point, options)')
